@@ -81,6 +81,46 @@ def run(run, replay=None):
                     fails.append(("duty-not-running", {"kind": "duty-not-running", "workers": k}, o))
             finally:
                 srv.stop()
+    # requests keep arriving WHILE the periodic save runs, with as few workers as clients: the duty must not need a free worker
+    # (or anything else a request handler can hold) to finish, and the handlers must not wait for the duty for ever
+    import threading as _th
+    for k in ([1, 2, 3] if run.tier == "thorough" else [1, 2]):
+        ud = os.path.join(wd, "busy-%d" % k)
+        srv = S.Server(bindir, dic, ud, workers=k, save_secs=1)
+        try:
+            if not srv.wait_listening():
+                continue
+            stop_at = time.time() + (6.0 if run.tier == "thorough" else 3.2)
+            done = [0] * k
+            errs = []
+
+            def hammer(i):
+                while time.time() < stop_at:
+                    r_ = srv.conv(["くるまで", "やまだ", "しんかこか"][(i + done[i]) % 3], timeout=6.0)
+                    if r_[0] != "ok":
+                        errs.append(r_[0])
+                        return
+                    if done[i] % 5 == 0 and r_[1]["candidates"]:
+                        srv.rpc("UpdateFrequency", {"session_id": r_[1]["session_id"], "candidate_id": "0"}, timeout=6.0)
+                    done[i] += 1
+            ths = [_th.Thread(target=hammer, args=(i,)) for i in range(k)]
+            for t_ in ths:
+                t_.start()
+            for t_ in ths:
+                t_.join(20)
+            probe = srv.conv("くるまで", timeout=5.0)
+            srv.rpc("RegisterWord", {"kind": "CommonNoun", "reading": "てすと", "word": "多忙"}, timeout=5.0)
+            saved = S.wait_until(lambda: os.path.exists(os.path.join(ud, "user.dic")) and
+                                 "多忙" in open(os.path.join(ud, "user.dic"), encoding="utf-8", errors="replace").read(), 6.0) is not None
+            o = {"workers": k, "clients_converting_during_saves": k, "conversions_answered": sum(done), "errors": errs[:3],
+                 "answers_afterwards": probe[0] == "ok", "periodic_save_afterwards": saved, "user_dir": True}
+            obs.append(o)
+            if errs or probe[0] != "ok":
+                fails.append(("never-answers", {"kind": "never-answers", "phase": "requests-during-saves"}, o))
+            elif not saved:
+                fails.append(("duty-not-running", {"kind": "duty-not-running", "workers": k, "phase": "requests-during-saves"}, o))
+        finally:
+            srv.stop()
     for kind, key, w in fails[:6]:
         run.failures.append(cl.Failure("oracle", "server violates C13 (%s): %s" % (kind, json.dumps(w)), witness=w, key=key))
     if dis and not fails:
